@@ -37,12 +37,19 @@ type cfg struct {
 	step    int // 0 = single write
 	party   string
 	copy    bool // hand the plaintext over with io.Copy from a plain source (uses the writer's ReadFrom if it has one)
+	// armorOnly: the armor layer used on its own over arbitrary bytes; size -1
+	// is a writer that is closed without ever being written to (which still
+	// has to leave a valid, empty armored file)
+	armorOnly bool
 }
 
 func (c cfg) String() string {
 	s := fmt.Sprintf("size=%d armor=%v step=%d to=%s", c.size, c.armored, c.step, c.party)
 	if c.copy {
 		s += " via=io.Copy"
+	}
+	if c.armorOnly {
+		s += " layer=armor-alone"
 	}
 	return s
 }
@@ -82,6 +89,28 @@ func runEncrypt(c cfg, pt []byte, dst io.Writer, stopAtError bool) (firstErr str
 		if e != nil && firstErr == "" {
 			firstErr, err = name, e
 		}
+	}
+	if c.armorOnly {
+		aw = armor.NewWriter(dst)
+		for k, p := 0, pt; c.size >= 0; k++ {
+			n := len(p)
+			if c.step > 0 && n > c.step {
+				n = c.step
+			}
+			m, e := aw.Write(p[:n])
+			note(fmt.Sprintf("Write#%d", k), e)
+			if e == nil && m != n {
+				note(fmt.Sprintf("Write#%d", k), fmt.Errorf("short write %d/%d with nil error", m, n))
+			}
+			if e != nil && stopAtError {
+				return
+			}
+			if p = p[n:]; len(p) == 0 {
+				break
+			}
+		}
+		note("armor.Close", aw.Close())
+		return
 	}
 	w, e := age.Encrypt(out, keys.P(c.party).Recipient)
 	note("Encrypt", e)
@@ -143,6 +172,16 @@ func runEncrypt(c cfg, pt []byte, dst io.Writer, stopAtError bool) (firstErr str
 }
 
 func validFile(c cfg, got, pt []byte) error {
+	if c.armorOnly {
+		b, err := refage.Dearmor(got)
+		if err != nil {
+			return fmt.Errorf("not a complete armored file: %v", err)
+		}
+		if !bytes.Equal(b, pt) {
+			return errors.New("de-armors to other bytes")
+		}
+		return nil
+	}
 	bin := got
 	if c.armored {
 		b, err := refage.Dearmor(got)
@@ -207,6 +246,12 @@ func dstSide(r *mon.Run) {
 			cfgs = append(cfgs, cfg{size: sz, armored: arm, party: "X1", copy: true})
 		}
 	}
+	for _, sz := range []int{-1, 0, 1, 47, 48, 49, 96, 1000} {
+		cfgs = append(cfgs, cfg{size: sz, armored: true, armorOnly: true, party: "X1"})
+		if sz > 48 {
+			cfgs = append(cfgs, cfg{size: sz, armored: true, armorOnly: true, step: 17, party: "X1"})
+		}
+	}
 	if r.Thorough() {
 		cfgs = append(cfgs, cfg{size: 70000, armored: true, step: 65536, party: "R1"}, cfg{size: 300, armored: false, step: 7, party: "S1"})
 	}
@@ -218,7 +263,7 @@ func dstSide(r *mon.Run) {
 	}
 	var jobs []job
 	for _, c := range cfgs {
-		pt := mon.DetBytes("c13-"+c.String(), c.size)
+		pt := mon.DetBytes("c13-"+c.String(), max(c.size, 0))
 		clean := &mon.ObservingWriter{}
 		if name, err := runEncrypt(c, pt, clean, true); err != nil {
 			r.Violate("clean-run-failed:"+c.String(), fmt.Sprintf("%s: %s failed without any fault: %v", c, name, err), nil)
@@ -302,7 +347,7 @@ func dstSide(r *mon.Run) {
 		j := jobs[i]
 		name := fmt.Sprintf("dst %s fault=%s stop=%v err=%s", j.c, j.f, j.stop, dstErrs[i%len(dstErrs)].name)
 		r.Guard(name, func() {
-			pt := mon.DetBytes("c13-"+j.c.String(), j.c.size)
+			pt := mon.DetBytes("c13-"+j.c.String(), max(j.c.size, 0))
 			fw := mon.NewFaultWriter()
 			fw.Once = j.f.once
 			// the identity of the error rotates: a writer may fail with a value
@@ -355,7 +400,7 @@ func dstSide(r *mon.Run) {
 			}
 			// every call reported success although a write failed
 			if err := validFile(j.c, fw.Buf, pt); err != nil {
-				r.Violate(fmt.Sprintf("dst-silent-loss:armor=%v:%s", j.c.armored, faultClass(j.n, fw)),
+				r.Violate(fmt.Sprintf("dst-silent-loss:armor=%v:%s", map[bool]any{false: j.c.armored, true: "alone"}[j.c.armorOnly], faultClass(j.n, fw)),
 					fmt.Sprintf("%s: the destination failed (call #%d) but Encrypt, every Write and Close reported success, and the %d bytes it accepted are %v", name, fw.CallOf, len(fw.Buf), err),
 					map[string]any{"config": j.c.String(), "fault": j.f.String(), "caller_stops_at_error": j.stop})
 			} else {
